@@ -1,4 +1,4 @@
-import ZV.Proofs.C06Canon
+import ZV.Proofs.C06Multi
 /-!
   C06 — certificate metadata is a faithful function of the DER bytes.
   All theorems are about `parseCert` / `Cert.meta` of `ZV.Model.C06`, the model of
@@ -513,5 +513,192 @@ example : ∃ c c', parseCert (encCert (encTbs exFields []) [0x30, 0x00] [0x03, 
     noct_invariant_bytes exFields [] exPoison 0 [0x30, 0x00] [0x03, 0x02, 0x00, 0x01] (by decide) (by decide)
   exact ⟨c, c', h1, h2, h3⟩
 example : ([0x30, 0x00] : Bytes) ≠ [] := by decide
+
+
+/-! ## (f) The bundle entry point `ParseCertificates`
+
+`parseCerts` (ZV.Model.C06Multi) is the model of `x509.ParseCertificates`; T2 compares it with the Go function on every
+`bundle` line.  The theorems say that a bundle is parsed certificate by certificate, each exactly as `ParseCertificate`
+parses it on its own bytes: nothing carries over from one certificate of a bundle to the next, and the position in the
+bundle is irrelevant. -/
+
+theorem parseCert_iff_head (bs : Bytes) (c : Cert) :
+    parseCert bs = .ok c ↔ parseCertHead bs = .ok (c, []) := by
+  rw [parseCert_eq_elem]
+  unfold parseCertHead
+  constructor
+  · intro h
+    rw [bind_ok] at h; obtain ⟨⟨ce, rest⟩, hc, h⟩ := h
+    split at h
+    · cases h
+    · rename_i hrest
+      have hre : rest = [] := by simpa using hrest
+      subst hre
+      rw [hc, res_bind_ok, h]; rfl
+  · intro h
+    rw [bind_ok] at h; obtain ⟨⟨ce, rest⟩, hc, h⟩ := h
+    rw [bind_ok] at h; obtain ⟨x, hx, h⟩ := h
+    simp at h
+    obtain ⟨h1, h2⟩ := h
+    subst h1; subst h2
+    rw [hc, res_bind_ok]
+    simpa using hx
+
+theorem parseCertHead_append (der rest : Bytes) (c : Cert) (h : parseCert der = .ok c) :
+    parseCertHead (der ++ rest) = .ok (c, rest) := by
+  rw [parseCert_eq_elem] at h
+  rw [bind_ok] at h; obtain ⟨⟨ce, r⟩, hc, h⟩ := h
+  split at h
+  · cases h
+  · rename_i hrest
+    have hre : r = [] := by simpa using hrest
+    subst hre
+    obtain ⟨hi, he⟩ := field_some_isElem (someElem_field_nil hc)
+    unfold parseCertHead
+    rw [someElem_field_isElem false rest hi, res_bind_ok, he]
+    simp only at h
+    rw [h]; rfl
+
+theorem parseCerts_nil : parseCerts [] = .ok [] := rfl
+
+theorem parseCerts_cons (der rest : Bytes) (c : Cert) (h : parseCert der = .ok c) :
+    parseCerts (der ++ rest) = (parseCerts rest).bind fun cs => .ok (c :: cs) := by
+  have hne : der ≠ [] := by
+    intro e; subst e
+    have := parseCertHead_rest_lt ((parseCert_iff_head _ _).1 h)
+    simp at this
+  unfold parseCerts
+  cases hl : (der ++ rest).length with
+  | zero =>
+    have : der ++ rest = [] := List.eq_nil_of_length_eq_zero hl
+    simp at this; exact absurd this.1 hne
+  | succ n =>
+    have hne' : (der ++ rest).isEmpty = false := by
+      cases der with
+      | nil => exact absurd rfl hne
+      | cons _ _ => rfl
+    simp only [parseCertsFuel, hne', Bool.false_eq_true, if_false]
+    rw [parseCertHead_append der rest c h, res_bind_ok]
+    simp only
+    rw [parseCertsFuel_fuel n rest.length rest (by simp at hl; have := List.length_pos_iff.mpr hne; omega) (Nat.le_refl _)]
+
+
+/-- what the head parser returns is a certificate that `ParseCertificate` accepts on its own bytes, and the input is
+    those bytes followed by the rest -/
+theorem parseCertHead_sound {bs : Bytes} {c : Cert} {rest : Bytes} (h : parseCertHead bs = .ok (c, rest)) :
+    bs = c.raw.full ++ rest ∧ parseCert c.raw.full = .ok c := by
+  unfold parseCertHead at h
+  rw [bind_ok] at h; obtain ⟨⟨ce, r⟩, hc, h⟩ := h
+  rw [bind_ok] at h; obtain ⟨x, hx, h⟩ := h
+  simp at h
+  obtain ⟨h1, h2⟩ := h
+  subst h1; subst h2
+  obtain ⟨hbs, hi, he⟩ := someElem_inv hc
+  have hraw : x.raw = ce := by
+    unfold parseCertElem at hx
+    rw [bind_ok] at hx; obtain ⟨_, _, hx⟩ := hx
+    rw [bind_ok] at hx; obtain ⟨_, _, hx⟩ := hx
+    rw [bind_ok] at hx; obtain ⟨_, _, hx⟩ := hx
+    rw [bind_ok] at hx; obtain ⟨_, _, hx⟩ := hx
+    rw [bind_ok] at hx; obtain ⟨_, _, hx⟩ := hx
+    injection hx with hx
+    rw [← hx]
+  rw [hraw]
+  refine ⟨hbs, ?_⟩
+  rw [parseCert_iff_head]
+  have := someElem_field_isElem false [] hi
+  rw [List.append_nil, he] at this
+  unfold parseCertHead
+  rw [this, res_bind_ok, hx]; rfl
+
+/-- **A bundle parses to the list of the individual parses.**  If every `dᵢ` is accepted by `ParseCertificate` with
+    result `cᵢ`, then `ParseCertificates (d₁ ‖ … ‖ dₙ)` is accepted with exactly `[c₁, …, cₙ]` — for every n, every
+    order, every mixture of certificates (with / without version, unique ids, extensions). -/
+theorem parseCerts_bundle : ∀ (ps : List (Bytes × Cert)), (∀ p ∈ ps, parseCert p.1 = .ok p.2) →
+    parseCerts (ps.map (·.1)).flatten = .ok (ps.map (·.2)) := by
+  intro ps
+  induction ps with
+  | nil => intro _; exact parseCerts_nil
+  | cons p tl ih =>
+    intro h
+    rw [List.map_cons, List.flatten_cons, parseCerts_cons _ _ _ (h p (List.mem_cons_self ..)),
+      ih (fun q hq => h q (List.mem_cons_of_mem _ hq))]
+    rfl
+
+/-- a single certificate through the bundle entry point -/
+theorem parseCerts_single (der : Bytes) (c : Cert) (h : parseCert der = .ok c) : parseCerts der = .ok [c] := by
+  have := parseCerts_bundle [(der, c)] (by simpa using h)
+  simpa using this
+
+theorem parseCertsFuel_sound : ∀ (n : Nat) (bs : Bytes) (cs : List Cert), parseCertsFuel n bs = .ok cs →
+    bs = (cs.map (·.raw.full)).flatten ∧ ∀ c ∈ cs, parseCert c.raw.full = .ok c := by
+  intro n
+  induction n with
+  | zero =>
+    intro bs cs h
+    simp only [parseCertsFuel] at h
+    split at h
+    · rename_i he
+      injection h with h; subst h
+      exact ⟨by simpa using he, by simp⟩
+    · cases h
+  | succ n ih =>
+    intro bs cs h
+    simp only [parseCertsFuel] at h
+    split at h
+    · rename_i he
+      injection h with h; subst h
+      exact ⟨by simpa using he, by simp⟩
+    · rw [bind_ok] at h; obtain ⟨⟨c, rest⟩, hh, h⟩ := h
+      rw [bind_ok] at h; obtain ⟨cs', hrec, h⟩ := h
+      injection h with h; subst h
+      obtain ⟨hbs, hc⟩ := parseCertHead_sound hh
+      obtain ⟨hr, hall⟩ := ih rest cs' hrec
+      refine ⟨?_, ?_⟩
+      · rw [hbs, List.map_cons, List.flatten_cons, ← hr]
+      · intro x hx
+        cases hx with
+        | head => exact hc
+        | tail _ hm => exact hall x hm
+
+/-- **Converse.**  Whatever `ParseCertificates` accepts is the concatenation of the `Raw` fields of the certificates it
+    returns, and each returned certificate is what `ParseCertificate` returns for its own `Raw` bytes — so all
+    metadata of a certificate in a bundle (`Cert.meta`: Raw fields, fingerprints, Version, no-CT bytes,
+    issuer==subject) is `(parseCert Raw).meta`, a function of that certificate's bytes alone. -/
+theorem parseCerts_sound (bs : Bytes) (cs : List Cert) (h : parseCerts bs = .ok cs) :
+    bs = (cs.map (·.raw.full)).flatten ∧ ∀ c ∈ cs, parseCert c.raw.full = .ok c :=
+  parseCertsFuel_sound _ _ _ h
+
+/-- position independence: a certificate `der` (accepted alone with result `c`) placed after any accepted bundle `pre`
+    and before any accepted bundle `post` comes out as the same `c` — whatever precedes or follows it. -/
+theorem bundle_position_independent (pre post : List (Bytes × Cert)) (der : Bytes) (c : Cert)
+    (hpre : ∀ p ∈ pre, parseCert p.1 = .ok p.2) (h : parseCert der = .ok c)
+    (hpost : ∀ p ∈ post, parseCert p.1 = .ok p.2) :
+    parseCerts ((pre.map (·.1)).flatten ++ der ++ (post.map (·.1)).flatten)
+      = .ok (pre.map (·.2) ++ c :: post.map (·.2)) := by
+  have := parseCerts_bundle (pre ++ (der, c) :: post) (by
+    intro p hp
+    rcases List.mem_append.mp hp with hp | hp
+    · exact hpre p hp
+    · cases hp with
+      | head => exact h
+      | tail _ hm => exact hpost p hm)
+  simpa using this
+
+example : ∃ cs, parseCerts (encCert (encTbs exFields [exBC]) [0x30, 0x00] [0x03, 0x02, 0x00, 0x01] ++
+      encCert (encTbs exFields []) [0x30, 0x00] [0x03, 0x02, 0x00, 0x01]) = .ok cs ∧ cs.length = 2 := by
+  obtain ⟨a, ha⟩ : ∃ c, parseCert (encCert (encTbs exFields [exBC]) [0x30, 0x00] [0x03, 0x02, 0x00, 0x01]) = .ok c :=
+    ⟨_, parseCert_encCert_encTbs _ _ _ _ (by decide)⟩
+  obtain ⟨b, hb⟩ : ∃ c, parseCert (encCert (encTbs exFields []) [0x30, 0x00] [0x03, 0x02, 0x00, 0x01]) = .ok c :=
+    ⟨_, parseCert_encCert_encTbs _ _ _ _ (by decide)⟩
+  refine ⟨[a, b], ?_, rfl⟩
+  have := parseCerts_bundle [(_, a), (_, b)] (by
+    intro p hp
+    simp at hp
+    rcases hp with hp | hp <;> subst hp
+    · exact ha
+    · exact hb)
+  simp only [List.map_cons, List.map_nil, List.flatten_cons, List.flatten_nil, List.append_nil] at this
+  exact this
 
 end ZV.C06
